@@ -72,7 +72,21 @@ class FortranNameManager:
 
     def __init__(self):
         from pytools import UniqueNameGenerator
-        self.name_generator = UniqueNameGenerator()
+
+        class CaseInsensitiveUniqueNameGenerator(UniqueNameGenerator):
+            """Fortran identifiers are case-insensitive."""
+
+            def __init__(self):
+                super().__init__()
+                self._lower_names = set()
+
+            def is_name_conflicting(self, name):
+                return name.lower() in self._lower_names
+
+            def _name_added(self, name):
+                self._lower_names.add(name.lower())
+
+        self.name_generator = CaseInsensitiveUniqueNameGenerator()
         self.local_map = KeyToUniqueNameMap(name_generator=self.name_generator)
         self.global_map = KeyToUniqueNameMap(start={
                 "<t>": "dagrt_t", "<dt>": "dagrt_dt"},
